@@ -111,7 +111,8 @@ Definition ba_test_clear (b : ba) (start len : N) : bool :=
     else go (start_byte + 1) ((len - mark_count) / 8) ((len - mark_count) mod 8)
   else go start_byte (len / 8) (len mod 8).
 
-(* ---- bulk get/set: memcpy at byte offset (start >> 3), (num+7)>>3 bytes ---- *)
+(* ---- bulk get/set (repaired code): the position is taken relative to the start of the bitmap; ranges on byte
+   boundaries are copied bytewise (memcpy at byte pos >> 3), all others bit by bit ---- *)
 Fixpoint get_bits (b : ba) (i : N) (k : nat) : list bool :=
   match k with O => [] | S k' => tb b i :: get_bits b (i + 1) k' end.
 
@@ -122,11 +123,13 @@ Fixpoint put_bits (b : ba) (i : N) (bits : list bool) : ba :=
   end.
 
 Definition ba_get (b : ba) (gs a n : N) : list bool :=
-  get_bits b (8 * (a / 8)) (N.to_nat n).
+  let pos := a - gs in
+  if pos mod 8 =? 0 then get_bits b (8 * (pos / 8)) (N.to_nat n) else get_bits b pos (N.to_nat n).
 
 (* the buffer handed to memcpy has (num+7)/8 bytes; [bits] holds all of them *)
 Definition ba_set (b : ba) (gs a : N) (bits : list bool) : ba :=
-  put_bits b (8 * (a / 8)) bits.
+  let pos := a - gs in
+  if (pos mod 8 =? 0) && (N.of_nat (length bits) mod 8 =? 0) then put_bits b (8 * (pos / 8)) bits else put_bits b pos bits.
 
 Definition BA (al : N) : backend := {|
   T := ba;
